@@ -272,7 +272,7 @@ def misc_facets(run):
 
 # ----------------------------------------------------------------------------- bounded: pathlines
 def bounded(run):
-    cnt = 48 if run.tier == "quick" else 600
+    cnt = 48 if run.tier == "quick" else 600 * run.tmul
     jobs = [dict(seed=run.seed * 29 + k, count=cnt // 8) for k in range(8)]
     res, errs = native.pmap("contracts.C18", "nat_pathlines", jobs)
     run.worker_errors(errs, len(jobs))
